@@ -379,3 +379,31 @@ def run_check(prop, propid, tier, seed, budget_s, max_cases, level, rule, assump
     print("property=%s cases=%d processes=%d distinct_sigs=%d violations=%d known=%d inconclusive=%d wall=%.1fs rc=%d" % (
         propid, agg["cases"], agg["nproc"], len(agg["sigs"]), nviol, len(seen_known), agg["inconclusive"], wall, rc))
     return rc
+
+
+def determinism(prop, propid, seed, n, tier="quick"):
+    """run the first n cases twice (pool sizes 16 and 5, different scratch roots) and diff everything"""
+    core.build()
+    if hasattr(prop, "prepare"):
+        prop.prepare(tier)
+    jobs = [(i, mix(seed, propid, i), tier) for i in range(n)]
+    outs = []
+    for nw in (NWORKERS, 5):
+        pool = mp.Pool(nw, initializer=_init_worker, initargs=(prop.__name__,))
+        try:
+            outs.append(pool.map(_work, jobs, chunksize=1))
+        finally:
+            pool.terminate()
+            pool.join()
+    bad = 0
+    for a, b in zip(*outs):
+        ka = {k: a.get(k) for k in ("violations", "sigs", "nproc", "ops", "faults_fired", "probes", "harness_error")}
+        kb = {k: b.get(k) for k in ("violations", "sigs", "nproc", "ops", "faults_fired", "probes", "harness_error")}
+        if json.dumps(ka, sort_keys=True, default=str) != json.dumps(kb, sort_keys=True, default=str):
+            bad += 1
+            if bad <= 3:
+                for k in ka:
+                    if ka[k] != kb[k]:
+                        print("DIVERGENCE case=%d seed=%d key=%s\n  A=%s\n  B=%s" % (a["i"], a["seed"], k, str(ka[k])[:600], str(kb[k])[:600]))
+    print("determinism property=%s cases=%d divergent=%d" % (propid, n, bad))
+    return 2 if bad else 0
